@@ -235,6 +235,25 @@ def observe(v):
         return ('unreadable', 'reading it raises %s: %s' % (type(e).__name__, e))
 
 
+def query_vector(v):
+    """Everything a caller can ask a value (beyond observe()): flags, searches, pieces, padded renderings, iteration."""
+    try:
+        t = v.base_str
+        codes = []
+        for i in range(len(t)):
+            for s_ in v.ansi_settings_at(i):
+                if str(s_) not in codes:
+                    codes.append(str(s_))
+        finds = tuple(v.find_settings(AnsiSetting(c), reverse=r) for c in codes[:3] for r in (False, True))
+        return (observe(v), v.is_formatting_valid(), v.is_formatting_parsable(), v.is_optimizable(), finds, len(v),
+                tuple(str(ch) for ch in v), str(v[1:]) if len(t) > 1 else '', str(v[:-1]) if len(t) > 1 else '',
+                format(v, '*>%d' % (len(t) + 2)), v.to_str(reset_start=True), tuple(str(x) for x in v.split()), str(v.upper()))
+    except env.HarnessError:
+        raise
+    except Exception as e:  # noqa
+        return ('unreadable', 'querying it raises %s: %s' % (type(e).__name__, e))
+
+
 def freeze_value(v):
     """Observation + an independent deep copy to compare with == later (the property names ==)."""
     import copy
